@@ -22,6 +22,7 @@ func newBody() *Body {
 }
 
 func (b *Body) appendItem(c nodeContent) *node {
+    b.ensureEndsWithNewline()
     nn := b.children.Append(c)
     b.items.Add(nn)
     return nn
@@ -29,9 +30,25 @@ func (b *Body) appendItem(c nodeContent) *node {
 
 func (b *Body) appendItemNode(nn *node) *node {
     nn.assertUnattached()
+    b.ensureEndsWithNewline()
     b.children.AppendNode(nn)
     b.items.Add(nn)
     return nn
+}
+
+// ensureEndsWithNewline makes sure that an item appended to the body starts on
+// a line of its own: a body read from a file whose last line has no newline
+// (or from a single-line block) ends in the middle of a line.
+func (b *Body) ensureEndsWithNewline() {
+    toks := b.children.BuildTokens(nil)
+    if len(toks) == 0 {
+        return
+    }
+    last := toks[len(toks)-1]
+    if len(last.Bytes) > 0 && last.Bytes[len(last.Bytes)-1] == '\n' {
+        return
+    }
+    b.AppendNewline()
 }
 
 // Clear removes all of the items from the body, making it empty.
